@@ -295,7 +295,7 @@ impl<'a> Gen<'a> {
         }
         while i < nops && !self.sys.dead {
             i += 1;
-            if self.sys.http.is_some() && self.rng.chance(1, 4) {
+            if self.sys.http.is_some() && !self.sys.use_plugin_client && self.rng.chance(1, 4) {
                 crate::httpc::extras(self);
                 continue;
             }
@@ -400,13 +400,17 @@ pub fn run(seed: u64, thorough: bool, rep: &mut Report) {
 }
 
 pub fn run_mode(seed: u64, thorough: bool, rep: &mut Report, http: bool) {
+    run_mode2(seed, thorough, rep, http, false)
+}
+
+pub fn run_mode2(seed: u64, thorough: bool, rep: &mut Report, http: bool, plugin_client: bool) {
     install_panic_hook();
     // lock-order graph over everything the histories execute (hook H5, passive observer)
     let recorder = std::sync::Arc::new(crate::sync::Recorder::default());
     teos::vsync::set_observer(Some(recorder.clone()));
     let boot = BootChain::new();
     let mut master = Rng::new(seed);
-    let ncases = if http { if thorough { 600 } else { 60 } } else if thorough { 4000 } else { 160 };
+    let ncases = if plugin_client { if thorough { 300 } else { 25 } } else if http { if thorough { 600 } else { 60 } } else if thorough { 4000 } else { 160 };
     for c in 0..ncases {
         let mut rng = master.fork();
         let cfg = (
@@ -419,6 +423,7 @@ pub fn run_mode(seed: u64, thorough: bool, rep: &mut Report, http: bool) {
         let mut sys = TowerSys::boot(cfg, height, &boot, rep);
         if http {
             sys.http = Some(std::sync::Arc::new(crate::httpfront::HttpFront::start(sys.api.clone())));
+            sys.use_plugin_client = plugin_client;
         }
         let nops = rng.range(15, if thorough { 140 } else { 70 }) as usize;
         let mut g = Gen { rng, sys, world: World::new(), rep: &mut *rep, nlocs: 4, nusers: 3, monitors: true, mon: Default::default(), max_blob: if http { 800 } else { usize::MAX } };
